@@ -23,6 +23,7 @@ pub mod c17_l2;
 pub mod c18;
 pub mod c19;
 pub mod c19_l2;
+pub mod c20;
 
 use crate::engine::Run;
 
@@ -47,6 +48,13 @@ pub fn dispatch(run: &mut Run) -> bool {
     "C17" => c17::run(run),
     "C18" => c18::run(run),
     "C19" => c19::run(run),
+    "C20" => {
+      if cfg!(feature = "uring") {
+        c20::run(run)
+      } else {
+        run.inconclusive("this binary was built without the harness feature `uring`; use ./check C20");
+      }
+    }
     _ => return false,
   }
   true
